@@ -746,7 +746,12 @@ class ScriptedRng:
         self.calls.append(rec)
         return items[i]
 
+    def __deepcopy__(self, memo):
+        return self
+
     def __getattr__(self, n):
+        if n.startswith("__") or n == "real":
+            raise AttributeError(n)
         return getattr(self.real, n)
 
 
